@@ -571,7 +571,6 @@ func fmtTxs(txs []*wire.MsgTx) string {
 	return joinOr(s, "|")
 }
 
-
 // directedBlocks emits the directed transaction-filtering cases shared by C10 and C11 (both builders are compared in
 // every `blk` case): each match condition alone, and parent / child / grandchild spend graphs per script class, flag
 // and block order.
